@@ -1,7 +1,7 @@
 #pragma once
 #include <stdint.h>
 // C01 — parallel loops. Shared between the halves.
-enum { C01_FOR = 0, C01_FOREACH_CONT = 1, C01_FOREACH_IT = 2, C01_BLOCKS = 3 };
+enum { C01_FOR = 0, C01_FOREACH_CONT = 1, C01_FOREACH_IT = 2, C01_BLOCKS = 3, C01_FOREACH_DEQUE = 4 };  // DEQUE: a random-access range that is not contiguous
 enum { C01_MAXCALLS = 3 };
 struct C01Call
 {
